@@ -510,6 +510,11 @@ fn word_level_cells(cx: &mut Ctx, bits: &[bool], o: &Oracle, ps: &[usize], cj: &
         chk!(ba::Bmi2RankOps::popcount_bulk(words) == pcs, "popcount_bulk");
         #[cfg(target_arch = "x86_64")]
         chk!(ba::Bmi2BlockOps::process_blocks_simd(words) == words.iter().map(|w| (w.count_ones(), w.leading_zeros())).collect::<Vec<_>>(), "process_blocks_simd");
+        // cache hints: any argument is allowed, nothing may be observable afterwards
+        for wi in [0usize, words.len().saturating_sub(1), words.len(), words.len() + 9] {
+            chk!({ ba::Bmi2PrefetchOps::prefetch_bit_data(words, wi); ba::Bmi2PrefetchOps::prefetch_sequential(words, wi, 64); ba::Bmi2PrefetchOps::prefetch_sequential(words, wi, 0);
+                   ba::Bmi2PrefetchOps::prefetch_rank_cache(&pcs, wi); true }, "prefetch");
+        }
         let an = bc::Bmi2SequenceOps::analyze_bit_patterns(words);
         chk!(an.total_words == words.len() && an.total_ones == no, "analyze_bit_patterns: total_words {} total_ones {} want {} {}", an.total_words, an.total_ones, words.len(), no);
         // positions: ascending as generated, then a shuffled batch with repeats and the end in the middle
@@ -589,4 +594,355 @@ fn word_level_cells(cx: &mut Ctx, bits: &[bool], o: &Oracle, ps: &[usize], cj: &
         bad.extend(panics.into_iter().take(3));
         Ok(bad)
     });
+}
+
+// ------------------------------------------------------------------------------------------------------------
+// extended BitVector histories: the operations of c04.rs (codes 0..=12) mixed with the ones the Coq model does not
+// know.  Oracle only (cell `bitvector/xhistory`), against a Vec<bool>; then the final vector and the structures built
+// from it (they count whole storage words, so anything an operation leaves behind past the end shows up there).
+//   13 reserve(a)                      14 get_mut(a): read (get and deref)       15 get_mut(a).set(v)
+//   16 set_range_simd(a, b, v)         17 bulk_bitwise_op_simd(other, op, a, b): other = gen_kind(KINDS[d/3 % 10], e, d), op = d % 3
+//   18 bv = bv.clone()                 19 bv == vector rebuilt from the shadow (both directions)
+//   20 bv == rebuilt vector with bit a flipped / one bit longer (must be unequal)
+//   21 count_zeros   22 is_empty       23 get_unchecked(a) (only when a < len)    24 set_unchecked(a, v) (only when a < len)
+//   25 bv = from_raw_bits(bv.blocks(), bv.len())                                  26 SE256 / Simple built from a clone: count_ones
+//   27 capacity() >= len()
+#[derive(Clone, Copy, Debug, PartialEq)]
+pub struct XOp { pub c: u32, pub a: usize, pub b: usize, pub v: bool, pub d: usize, pub e: usize }
+
+fn xop_json(o: &XOp) -> Value { json!([o.c, o.a, o.b, o.v as u8, o.d, o.e]) }
+fn xop_parse(v: &Value) -> XOp {
+    let g = |i: usize| v[i].as_u64().unwrap_or(0) as usize;
+    XOp { c: v[0].as_u64().unwrap_or(12) as u32, a: g(1), b: g(2), v: g(3) == 1, d: g(4), e: g(5) }
+}
+
+fn other_of(op: &XOp) -> Vec<bool> { gen_kind(KINDS[(op.d / 3) % KINDS.len()], op.e, op.d as u64) }
+
+fn x_apply(bv: &mut BitVector, l: &[bool], op: &XOp) -> i128 {
+    fn r(x: zipora::Result<()>) -> i128 { if x.is_ok() { 0 } else { -1 } }
+    match op.c {
+        0..=12 => bv_apply(bv, (op.c, op.a, op.v)),
+        13 => r(bv.reserve(op.a)),
+        14 => match bv.get_mut(op.a) { None => -1, Some(rf) => { let g = rf.get(); let d: bool = *rf; if g != d { 99 } else { g as i128 } } },
+        15 => match bv.get_mut(op.a) { None => -1, Some(mut rf) => r(rf.set(op.v)) },
+        16 => r(bv.set_range_simd(op.a, op.b, op.v)),
+        17 => { let ob = make_bv(&other_of(op), (op.d % 6) as u32);
+                let bop = [BitwiseOp::And, BitwiseOp::Or, BitwiseOp::Xor][op.d % 3];
+                r(bv.bulk_bitwise_op_simd(&ob, bop, op.a, op.b)) }
+        18 => { let c = bv.clone(); *bv = c; 0 }
+        19 => { let rb = make_bv(l, 0); (*bv == rb) as i128 + 2 * (rb == *bv) as i128 }
+        20 => { let mut f = l.to_vec(); if op.a < f.len() { f[op.a] = !f[op.a]; } else { f.push(op.v); }
+                let rb = make_bv(&f, 0); (*bv == rb) as i128 + 2 * (rb == *bv) as i128 }
+        21 => bv.count_zeros() as i128,
+        22 => bv.is_empty() as i128,
+        23 => if op.a < l.len() { unsafe { bv.get_unchecked(op.a) as i128 } } else { -1 },
+        24 => if op.a < l.len() { unsafe { bv.set_unchecked(op.a, op.v); } 0 } else { -1 },
+        25 => match BitVector::from_raw_bits(bv.blocks().to_vec(), bv.len()) { Ok(n) => { *bv = n; 0 } Err(_) => -1 },
+        26 => { let a = RankSelectSE256::new(bv.clone()).map(|s| s.count_ones() as i128).unwrap_or(-7);
+                let b = RankSelectSimple::new(bv.clone()).map(|s| s.count_ones() as i128).unwrap_or(-7);
+                if a == b { a } else { -8 } }
+        _ => (bv.capacity() >= bv.len()) as i128,
+    }
+}
+
+fn x_ref(l: &mut Vec<bool>, op: &XOp) -> i128 {
+    match op.c {
+        0..=12 => ref_apply(l, (op.c, op.a, op.v)),
+        13 => 0,
+        14 => l.get(op.a).map(|x| *x as i128).unwrap_or(-1),
+        15 => if op.a < l.len() { l[op.a] = op.v; 0 } else { -1 },
+        16 => if op.a > op.b || op.b > l.len() { -1 } else { for i in op.a..op.b { l[i] = op.v; } 0 },
+        17 => { let ot = other_of(op);
+                if op.a > op.b || op.b > l.len() || op.b > ot.len() { -1 } else {
+                    for i in op.a..op.b { l[i] = match op.d % 3 { 0 => l[i] & ot[i], 1 => l[i] | ot[i], _ => l[i] ^ ot[i] }; } 0 } }
+        18 => 0,
+        19 => 3,
+        20 => 0,
+        21 => l.iter().filter(|x| !**x).count() as i128,
+        22 => l.is_empty() as i128,
+        23 => l.get(op.a).map(|x| *x as i128).unwrap_or(-1),
+        24 => if op.a < l.len() { l[op.a] = op.v; 0 } else { -1 },
+        25 => 0,
+        26 => l.iter().filter(|x| **x).count() as i128,
+        _ => 1,
+    }
+}
+
+/// start: 0 new, 1 with_size(n, v), 2 with_capacity(n), 3 from_raw_bits(words of gen_kind(kind, n, seed), n), 4 default
+fn x_start(start: u32, n: usize, v: bool, seed: u64) -> (zipora::Result<BitVector>, Vec<bool>) {
+    match start {
+        1 => (BitVector::with_size(n, v), vec![v; n]),
+        2 => (BitVector::with_capacity(n), vec![]),
+        3 => { let b = gen_kind(KINDS[(seed % 10) as usize], n, seed); let mut w = words_of(&b);
+               // surplus bits past n in the last word: from_raw_bits must drop them
+               if n % 64 != 0 && seed % 2 == 0 { let k = w.len() - 1; w[k] |= !((1u64 << (n % 64)) - 1); }
+               (BitVector::from_raw_bits(w, n), b) }
+        4 => (Ok(BitVector::default()), vec![]),
+        _ => (Ok(BitVector::new()), vec![]),
+    }
+}
+
+pub fn x_gen_ops(r: &mut Rng) -> (u32, usize, bool, u64, Vec<XOp>) {
+    let start = r.below(5) as u32;
+    let n0 = *r.pick(&[0usize, 1, 63, 64, 65, 127, 128, 129, 255, 256, 257, 300, 511, 512, 513, 1000]);
+    let v0 = r.chance(1, 2);
+    let seed = r.below(1000);
+    let mut len = if start == 1 || start == 3 { n0 } else { 0 };
+    let mut ops: Vec<XOp> = vec![];
+    let nops = 12 + r.below(50) as usize;
+    let z = XOp { c: 0, a: 0, b: 0, v: false, d: 0, e: 0 };
+    while ops.len() < nops {
+        let near = |r: &mut Rng, len: usize| -> usize {
+            match r.below(9) { 0 => 0, 1 => len, 2 => len + 1, 3 => len.saturating_sub(1), 4 => (len / 64) * 64, 5 => (len / 64) * 64 + 64,
+                               6 => len + *r.pick(&[2usize, 63, 64, 65, 200]), 7 => (len / 256) * 256, _ => r.below(len as u64 + 1) as usize } };
+        match r.below(100) {
+            0..=13 => { let burst = if r.chance(1, 3) { 1 + r.below(140) as usize } else { 1 }; let dense = r.chance(1, 2);
+                        for _ in 0..burst { ops.push(XOp { c: 0, v: if dense { !r.chance(1, 8) } else { r.chance(1, 2) }, ..z }); len += 1; } }
+            14..=18 => { let k = if r.chance(1, 3) { 1 + r.below(70) as usize } else { 1 }; for _ in 0..k { ops.push(XOp { c: 1, ..z }); len = len.saturating_sub(1); } }
+            19..=21 => ops.push(XOp { c: 2, a: near(r, len), v: r.chance(1, 2), ..z }),
+            22..=26 => { let n = near(r, len); ops.push(XOp { c: 3, a: n, v: r.chance(1, 2), ..z }); len = n; }
+            27..=29 => { let i = near(r, len); ops.push(XOp { c: 4, a: i, ..z }); if i >= len { len = i + 1; } }
+            30..=32 => { let i = near(r, len); ops.push(XOp { c: 5, a: i, ..z }); if i >= len { len = i + 1; } }
+            33 => { if len < 300 { let i = near(r, len); ops.push(XOp { c: 6, a: i, v: r.chance(1, 2), ..z }); if i <= len { len += 1; } } }
+            34 => { if r.chance(1, 3) { ops.push(XOp { c: 7, ..z }); len = 0; } }
+            35..=37 => ops.push(XOp { c: 9, a: near(r, len), ..z }),
+            38..=39 => ops.push(XOp { c: 11, ..z }),
+            // ---- the operations new in this family
+            40..=45 => ops.push(XOp { c: 13, a: *r.pick(&[0usize, 1, 63, 64, 65, 500, 4096, 70000]), ..z }),
+            46..=48 => ops.push(XOp { c: 14, a: near(r, len), ..z }),
+            49..=53 => ops.push(XOp { c: 15, a: near(r, len), v: r.chance(1, 2), ..z }),
+            54..=65 => { let (mut a, mut b) = (near(r, len), near(r, len)); if a > b && !r.chance(1, 10) { std::mem::swap(&mut a, &mut b); }
+                         if r.chance(1, 8) { a = 0; b = 0; } if r.chance(1, 8) { a = len; b = len; } if r.chance(1, 8) { a = 0; b = len; }
+                         ops.push(XOp { c: 16, a, b, v: r.chance(1, 2), ..z }); }
+            66..=77 => { let (mut a, mut b) = (near(r, len), near(r, len)); if a > b && !r.chance(1, 10) { std::mem::swap(&mut a, &mut b); }
+                         if r.chance(1, 8) { a = 0; b = 0; } if r.chance(1, 6) { a = 0; b = len; }
+                         // the other vector: as long as this one, longer (bits past this vector's end), shorter, block-aligned
+                         let e = match r.below(6) { 0 => len, 1 => len + *r.pick(&[1usize, 63, 64, 65, 300]), 2 => b, 3 => (len / 64) * 64 + 64, 4 => len / 2, _ => len + 5 };
+                         ops.push(XOp { c: 17, a, b, v: false, d: r.below(3000) as usize, e }); }
+            78..=80 => ops.push(XOp { c: 18, ..z }),
+            81..=83 => ops.push(XOp { c: 19, ..z }),
+            84..=85 => ops.push(XOp { c: 20, a: near(r, len), v: r.chance(1, 2), ..z }),
+            86 => ops.push(XOp { c: 21, ..z }),
+            87 => ops.push(XOp { c: 22, ..z }),
+            88..=89 => ops.push(XOp { c: 23, a: near(r, len), ..z }),
+            90..=92 => ops.push(XOp { c: 24, a: near(r, len), v: r.chance(1, 2), ..z }),
+            93..=95 => ops.push(XOp { c: 25, ..z }),
+            96..=98 => ops.push(XOp { c: 26, ..z }),
+            _ => ops.push(XOp { c: 27, ..z }),
+        }
+        if len > 2600 { ops.push(XOp { c: 3, a: 100, ..z }); len = 100; }
+    }
+    ops.push(XOp { c: 11, ..z }); ops.push(XOp { c: 12, ..z }); ops.push(XOp { c: 26, ..z }); ops.push(XOp { c: 19, ..z });
+    (start, n0, v0, seed, ops)
+}
+
+pub fn x_history(cx: &mut Ctx, start: u32, n0: usize, v0: bool, seed: u64, ops: &[XOp]) {
+    let name = "bitvector/xhistory";
+    let cj = json!({"cell": name, "start": {"how": start, "n": n0, "val": v0, "seed": seed}, "ops": ops.iter().map(xop_json).collect::<Vec<_>>()});
+    if !cx.begin_case(&cj) { return; }
+    let key = format!("{} {} {} {} {:?}", start, n0, v0, seed, ops);
+    let mutations = ops.iter().filter(|o| o.c <= 7 || [15u32, 16, 17, 24].contains(&o.c)).count();
+    cx.sum.eval(name, &key, mutations >= 5);
+    cx.sum.cell_status(name, "S-only");
+    let res = guarded(|| {
+        let mut bad: Vec<String> = vec![];
+        let (st, mut l) = x_start(start, n0, v0, seed);
+        let mut bv = match st { Ok(b) => b, Err(e) => return vec![format!("start refused: {:?}", e)] };
+        if bv.len() != l.len() { bad.push(format!("start: len {} want {}", bv.len(), l.len())); }
+        for (k, op) in ops.iter().enumerate() {
+            let before = l.clone();
+            let got = match guarded(|| x_apply(&mut bv, &before, op)) { Ok(g) => g, Err(e) => { bad.push(format!("op #{} {:?} panicked: {}", k, op, e)); break; } };
+            let want = x_ref(&mut l, op);
+            if got != want && bad.len() < 3 { bad.push(format!("op #{} {:?}: got {} want {}", k, op, got, want)); }
+        }
+        if bv.len() != l.len() { bad.push(format!("len {} want {}", bv.len(), l.len())); return bad; }
+        let o = Oracle::new(&l);
+        if bv.count_ones() != o.ones.len() { bad.push(format!("count_ones {} want {}", bv.count_ones(), o.ones.len())); }
+        for p in 0..=l.len() {
+            if p < l.len() && bv.get(p) != Some(l[p]) && bad.len() < 4 { bad.push(format!("final get({}) = {:?} want {}", p, bv.get(p), l[p])); }
+            if bv.rank1(p) != o.pre[p] && bad.len() < 4 { bad.push(format!("final rank1({}) = {} want {}", p, bv.rank1(p), o.pre[p])); }
+        }
+        if bad.is_empty() {
+            let ps: Vec<usize> = (0..=l.len()).collect();
+            for (nm, b) in [("interleaved256", RankSelectInterleaved256::new(bv.clone()).map(|x| check_ops(&x, &o, &ps, true))),
+                            ("se256", RankSelectSE256::new(bv.clone()).map(|x| check_ops(&x, &o, &ps, true))),
+                            ("se512", RankSelectSE512::new(bv.clone()).map(|x| check_ops(&x, &o, &ps, true))),
+                            ("simple", RankSelectSimple::new(bv.clone()).map(|x| check_ops(&x, &o, &ps, true))),
+                            ("few_one", RankSelectFewOne::from_bitvector(&bv).map(|x| check_ops(&x, &o, &ps, true)))] {
+                match b { Ok(v) => for e in v.into_iter().take(2) { bad.push(format!("{} built from the vector: {}", nm, e)); },
+                          Err(e) => bad.push(format!("{} construction refused: {:?}", nm, e)) }
+            }
+            // growing again must not resurrect anything left behind past the end
+            let mut g = bv.clone();
+            let newlen = l.len() + 130;
+            if g.ensure_set1(newlen - 1).is_ok() {
+                let mut l2 = l.clone(); l2.resize(newlen, false); l2[newlen - 1] = true;
+                for p in l.len()..newlen { if g.get(p) != Some(l2[p]) { bad.push(format!("after ensure_set1({}): bit {} is set", newlen - 1, p)); break; } }
+            }
+        }
+        bad
+    });
+    match res {
+        Err(p) => cx.sum.fail(name, None, cj.clone(), &format!("panicked: {}", p)),
+        Ok(bad) => if !bad.is_empty() { cx.sum.fail(name, None, cj.clone(), &bad.iter().take(4).cloned().collect::<Vec<_>>().join("; ")); }
+    }
+}
+
+pub fn x_history_replay(cx: &mut Ctx, c: &Value) {
+    let ops: Vec<XOp> = c["ops"].as_array().map(|a| a.iter().map(xop_parse).collect()).unwrap_or_default();
+    let s = &c["start"];
+    x_history(cx, s["how"].as_u64().unwrap_or(0) as u32, s["n"].as_u64().unwrap_or(0) as usize, s["val"].as_bool().unwrap_or(false), s["seed"].as_u64().unwrap_or(0), &ops);
+}
+
+// ------------------------------------------------------------------------------------------------------------
+// vectors described by (kind, n, seed): thresholds far from the small cases.
+//   n <= 20000: the whole RS evaluation of c04.rs (every structure, every entry point) - sizes around 8192/8448 (32/33
+//               blocks: linear / bisecting hybrid select), 10000 (Small/Medium of the adaptive profile), 16384;
+//   larger   : every structure once, boundary + sampled queries - 65535..65537, 2^20-1..2^20+1, 1000000.
+pub fn big_case(kind: &str, n: usize, seed: u64, mode: u32) -> Value { json!({"cell": "big", "kind": kind, "n": n, "seed": seed, "mode": mode}) }
+
+pub fn big_replay(cx: &mut Ctx, c: &Value) {
+    let kind = c["kind"].as_str().unwrap_or("half").to_string();
+    big_vector(cx, &kind, c["n"].as_u64().unwrap_or(0) as usize, c["seed"].as_u64().unwrap_or(0), c["mode"].as_u64().unwrap_or(0) as u32);
+}
+
+pub fn big_vector(cx: &mut Ctx, kind: &str, n: usize, seed: u64, mode: u32) {
+    let bits = gen_kind(kind, n, seed);
+    let cj = big_case(kind, n, seed, mode);
+    cx.sum.dist("kind_n_seed_vectors");
+    cx.sum.dist_max("max_len", n as u64);
+    if n <= 20000 {
+        let mut r = Rng::new(seed + n as u64);
+        one_vector_cj(cx, &bits, mode, &mut r, false, Some(cj));
+        return;
+    }
+    if !cx.begin_case(&cj) { return; }
+    let o = Oracle::new(&bits);
+    let (no, nz) = (o.ones.len(), o.zeros.len());
+    let key = format!("big {} {} {} {}", kind, n, seed, mode);
+    let nontrivial = no > 0 && nz > 0;
+    // positions: both ends, every 2^16 boundary, a few 64/256/512 boundaries near the ends and the middle, random ones
+    let mut r = Rng::new(seed ^ n as u64);
+    let mut ps: Vec<usize> = vec![0, 1, 63, 64, 65, 255, 256, 257, 511, 512, 513, n / 2, n - 1, n];
+    let mut b = 65536usize; while b <= n + 1 { for d in [b - 1, b, b + 1] { if d <= n { ps.push(d); } } b += 65536; }
+    for base in [n / 2, n] { for al in [64usize, 256, 512, 2048] { let x = (base / al) * al; for d in [x.wrapping_sub(1), x, x + 1] { if d <= n { ps.push(d); } } } }
+    for _ in 0..40 { ps.push(r.below(n as u64 + 1) as usize); }
+    ps.sort(); ps.dedup();
+    let mk = |m: usize, pre_at: &dyn Fn(usize) -> usize, r: &mut Rng| -> Vec<usize> {
+        let mut v = vec![0usize, 1, m / 2, m.saturating_sub(1), m, m + 1, 511, 512, 513];
+        let mut b = 65536usize; while b <= n { let q = pre_at(b); v.push(q.saturating_sub(1)); v.push(q); b += 65536 * (1 + n / (65536 * 8)); }
+        for _ in 0..10 { v.push(r.below(m as u64 + 1) as usize); }
+        v.sort(); v.dedup(); v };
+    let ks1 = mk(no, &|b| o.pre[b], &mut r);
+    let ks0 = mk(nz, &|b| b - o.pre[b], &mut r);
+    let bv = make_bv(&bits, mode);
+    let words = words_of(&bits);
+    macro_rules! cell { ($name:expr, $sel0:expr, $build:expr) => {{
+        run_cell(cx, $name, &key, nontrivial, &cj, || { let rs = $build.map_err(es)?; Ok(check_sample(&rs, &o, &ps, &ks1, &ks0, $sel0)) });
+    }}; }
+    cell!("big/interleaved256", true, RankSelectInterleaved256::new(bv.clone()));
+    cell!("big/interleaved256/nocache", true, RankSelectInterleaved256::with_options(bv.clone(), false, 512));
+    cell!("big/interleaved256/rate", true, RankSelectInterleaved256::with_options(bv.clone(), true, [64usize, 1000, 4096][n % 3]));
+    cell!("big/se256", true, RankSelectSE256::new(bv.clone()));
+    cell!("big/se256/opts", true, RankSelectSE256::with_options(bv.clone(), n % 2 == 0, n % 2 == 1));
+    cell!("big/se512", true, RankSelectSE512::new(bv.clone()));
+    cell!("big/se512/nocache", true, RankSelectSE512::with_options(bv.clone(), false, false));
+    cell!("big/simple", true, RankSelectSimple::new(bv.clone()));
+    cell!("big/simple/from_words", true, RankSelectSimple::from_words(words.clone(), n));
+    cell!("big/few_one", true, RankSelectFewOne::from_bitvector(&bv));
+    cell!("big/few_zero", true, RankSelectFewZero::from_bitvector(&bv));
+    cell!("big/adaptive", true, AdaptiveRankSelect::new(bv.clone()));
+    cell!("big/adaptive/criteria", true, AdaptiveRankSelect::with_criteria(bv.clone(), SelectionCriteria { enable_select_cache: false, prefer_space: true, access_pattern: AccessPattern::SelectHeavy, ..SelectionCriteria::default() }));
+    run_cell(cx, "big/mixed", &key, nontrivial, &cj, || {
+        let olen = [n / 2 + 3, n, n + 300][n % 3];
+        let other = gen_kind("alt", olen, 1);
+        let oo = Oracle::new(&other);
+        let m = RankSelectMixedIL256::new(bv.clone(), make_bv(&other, 0)).map_err(es)?;
+        let mut bad = tag("dim0", check_sample(&m.dim0(), &o, &ps, &ks1, &[], false));
+        let pso: Vec<usize> = ps.iter().cloned().filter(|&p| p <= olen).chain([olen]).collect();
+        bad.extend(tag("dim1", check_sample(&m.dim1(), &oo, &pso, &[0, 1, oo.ones.len() / 2, oo.ones.len().saturating_sub(1), oo.ones.len()], &[], false)));
+        let m2 = RankSelectMixedIL256::new(make_bv(&other, 0), bv.clone()).map_err(es)?;
+        bad.extend(tag("as dim1", check_sample(&m2.dim1(), &o, &ps, &ks1, &[], false)));
+        Ok(bad)
+    });
+    run_cell(cx, "big/multidim", &key, nontrivial, &cj, || {
+        let neg: Vec<bool> = bits.iter().map(|b| !b).collect();
+        let md = MultiDimRankSelect::<2>::new(vec![bv.clone(), make_bv(&neg, 0)]).map_err(es)?;
+        let mut bad = vec![];
+        for &p in &ps { let g = md.bulk_rank_multidim(&[p, n - p]); if g != [o.pre[p], (n - p) - o.pre[n - p]] && bad.len() < 3 { bad.push(format!("bulk_rank_multidim([{}, {}]) = {:?}", p, n - p, g)); } }
+        for (&k1, &k0) in ks1.iter().zip(ks0.iter()) { if k1 < no && k0 < nz {
+            let g = md.bulk_select_multidim(&[k1, k0]).ok();
+            if g != Some([o.ones[k1], o.zeros[k0]]) && bad.len() < 3 { bad.push(format!("bulk_select_multidim([{}, {}]) = {:?}", k1, k0, g)); } } }
+        let and = md.intersect_dimensions(0, 1).map_err(es)?;
+        if and.len() != n || and.count_ones() != 0 { bad.push(format!("intersect(0,1): len {} ones {}", and.len(), and.count_ones())); }
+        let or = md.union_dimensions(&[1, 0]).map_err(es)?;
+        if or.len() != n || or.count_ones() != n || or.rank1(n / 2) != n / 2 { bad.push(format!("union([1,0]): len {} ones {}", or.len(), or.count_ones())); }
+        let amd = AdaptiveMultiDimensional::new_dual(bv.clone(), make_bv(&neg, 0)).map_err(es)?;
+        bad.extend(tag("AdaptiveMultiDimensional", check_sample(&amd, &o, &ps, &ks1, &ks0, true)));
+        Ok(bad)
+    });
+    run_cell(cx, "big/bitvector", &key, nontrivial, &cj, || {
+        let mut bad = vec![];
+        if bv.len() != n || bv.count_ones() != no || bv.count_zeros() != nz { bad.push(format!("len/count_ones/count_zeros = {}/{}/{}", bv.len(), bv.count_ones(), bv.count_zeros())); }
+        for &p in &ps { if (bv.rank1(p) != o.pre[p] || bv.rank0(p) != p - o.pre[p] || (p < n && bv.get(p) != Some(bits[p]))) && bad.len() < 3 { bad.push(format!("rank1/rank0/get({})", p)); } }
+        if bv.rank1_bulk_simd(&ps) != ps.iter().map(|&p| o.pre[p]).collect::<Vec<_>>() { bad.push("rank1_bulk_simd".into()); }
+        let fr = BitVector::from_raw_bits(words.clone(), n).map_err(es)?;
+        if !(fr == bv && bv == fr && bv.clone() == bv) { bad.push("from_raw_bits / clone != vector".into()); }
+        // range fill and word-wise combination across many blocks, then back
+        let mut w = bv.clone();
+        let (a, b) = (n / 3 + 5, 2 * n / 3 + 70);
+        w.set_range_simd(a, b, true).map_err(es)?;
+        let want1 = o.pre[a] + (b - a) + (no - o.pre[b]);
+        if w.count_ones() != want1 || w.rank1(b) != o.pre[a] + (b - a) || w.len() != n { bad.push(format!("set_range_simd({}, {}, true): count_ones {} want {}", a, b, w.count_ones(), want1)); }
+        w.bulk_bitwise_op_simd(&bv, BitwiseOp::And, a, b).map_err(es)?;
+        if !(w == bv) { bad.push(format!("set_range_simd({}, {}, true) then And with the original over the same range != original (count_ones {} want {})", a, b, w.count_ones(), no)); }
+        w.bulk_bitwise_op_simd(&bv, BitwiseOp::Xor, 0, n).map_err(es)?;
+        if w.count_ones() != 0 { bad.push(format!("v xor v over [0, n): {} ones", w.count_ones())); }
+        Ok(bad)
+    });
+    run_cell(cx, "big/bulk", &key, nontrivial, &cj, || {
+        let mut bad = vec![];
+        let want: Vec<usize> = ps.iter().map(|&p| o.pre[p]).collect();
+        let k1: Vec<usize> = ks1.iter().cloned().filter(|&k| k < no).collect();
+        let wantk: Vec<usize> = k1.iter().map(|&k| o.ones[k]).collect();
+        let mut shuf: Vec<usize> = ps.iter().rev().cloned().collect(); shuf.insert(1, n); shuf.insert(3, 0);
+        let wants: Vec<usize> = shuf.iter().map(|&p| o.pre[p]).collect();
+        macro_rules! eqv { ($what:expr, $got:expr, $want:expr) => { match guarded(|| $got) { Ok(g) => if g != $want && bad.len() < 6 { bad.push(format!("{} differs", $what)); },
+                                                                                              Err(e) => if bad.len() < 6 { bad.push(format!("{} panicked: {}", $what, e)); } } } }
+        eqv!("bulk_rank1_simd", bulk_rank1_simd(&words, &ps), want);
+        eqv!("bulk_rank1_simd(unsorted)", bulk_rank1_simd(&words, &shuf), wants);
+        eqv!("Bmi2BlockOps::rank_bulk", ba::Bmi2BlockOps::rank_bulk(&words, &shuf), wants);
+        eqv!("bmi2_comprehensive bulk_rank1", bc::Bmi2BlockOps::bulk_rank1(&words, &shuf), wants);
+        eqv!("bulk_popcount_simd", bulk_popcount_simd(&words), words.iter().map(|w| w.count_ones() as usize).collect::<Vec<_>>());
+        eqv!("popcount_bulk", ba::Bmi2RankOps::popcount_bulk(&words), words.iter().map(|w| w.count_ones()).collect::<Vec<_>>());
+        if !k1.is_empty() {
+            eqv!("bulk_select1_simd", bulk_select1_simd(&words, &k1).ok(), Some(wantk.clone()));
+            eqv!("Bmi2BlockOps::select_bulk", ba::Bmi2BlockOps::select_bulk(&words, &k1).ok(), Some(wantk.clone()));
+            eqv!("Bmi2SelectOps::select1_bulk", ba::Bmi2SelectOps::select1_bulk(&words, &k1.iter().map(|&k| k as u32).collect::<Vec<_>>()).ok(), Some(wantk.iter().map(|&x| x as u32).collect::<Vec<_>>()));
+            eqv!("bulk_select1 (1-based)", bc::Bmi2BlockOps::bulk_select1(&words, &k1.iter().map(|&k| k + 1).collect::<Vec<_>>()).ok(), Some(wantk.clone()));
+            let nblk = (words.len() + 3) / 4;
+            let mut rc: Vec<u32> = vec![]; let mut c = 0u32;
+            for b in 0..nblk { for j in 0..4 { if let Some(w) = words.get(b * 4 + j) { c += w.count_ones(); } } rc.push(c); }
+            for &k in &k1 { eqv!(format!("select1_hybrid_cache({})", k), ba::Bmi2SelectOps::select1_hybrid_cache(&rc, &[0], &words, k as u32, no + 1).ok(), Some(o.ones[k] as u32)); }
+        }
+        eqv!("bulk_select1_simd([ones])", bulk_select1_simd(&words, &[no]).is_err(), true);
+        Ok(bad)
+    });
+}
+
+/// The deterministic (kind, n, seed) families of a run.
+pub fn big_family(cx: &mut Ctx, thorough: bool) {
+    // thresholds below 20000 bits: whole evaluation
+    let small: [(usize, &str, u32); 14] = [(8191, "dense", 0), (8192, "half", 2), (8193, "sparse_words", 0), (8447, "ones", 1), (8448, "blocks", 0), (8449, "half", 3),
+        (9999, "sparse", 0), (10000, "runs", 4), (10001, "dense", 5), (16383, "blocks", 0), (16384, "ones", 2), (16385, "sparse_words", 1), (4097, "blocks", 2), (12288, "single_last", 0)];
+    for (i, (n, kind, mode)) in small.iter().enumerate() { big_vector(cx, kind, *n, 100 + i as u64, *mode); }
+    // far thresholds: 2^16, 2^20, the adaptive profile's 10^6
+    let far: Vec<(usize, &str, u32)> = vec![(65535, "half", 0), (65536, "ones", 0), (65536, "sparse_words", 2), (65537, "dense", 1), (65537, "blocks", 0),
+        (131072, "runs", 0), ((1 << 20) - 1, "sparse", 0), (1 << 20, "half", 0), ((1 << 20) + 1, "ones", 0), (1_000_000, "blocks", 0), (999_999, "dense", 3), (1_000_001, "zeros", 0)];
+    for (i, (n, kind, mode)) in far.iter().enumerate() { big_vector(cx, kind, *n, 200 + i as u64, *mode); }
+    if thorough {
+        for (i, n) in [65535usize, 65536, 65537, 262143, 262144, 262145, (1 << 20) - 1, 1 << 20, (1 << 20) + 1, 999_999, 1_000_000, 1_000_001, (1 << 21) + 1].iter().enumerate() {
+            for (j, kind) in KINDS.iter().enumerate() { if (i + j) % 2 == 0 { big_vector(cx, kind, *n, 300 + (i * 10 + j) as u64, ((i + j) % 6) as u32); } }
+        }
+    }
 }
